@@ -92,6 +92,9 @@ def _setup(case):
                 state['deferreds'][tok] = (d, ret)
                 return d
             return ret
+        if k == 'unencodable':
+            # the method runs fine but hands back something that cannot travel under its declared return signature
+            return object() if spec['out'] else None
         if k == 'deferred-fail':
             d = defer.Deferred()
             state['deferreds'][tok] = (d, _exc(oc['exc'])(TEXTS[oc['text']]))
@@ -259,7 +262,12 @@ def _execute(case, choices=None):
                 if r is not None:
                     out.append(Disc('result.no-reply-call', 'call %d made with expectReply=False completed with %r' % (tok, r)))
                 continue
-            if oc['kind'] in ('value', 'deferred'):
+            if oc['kind'] == 'unencodable' and spec['out']:
+                # the call still concludes - with an error describing the failure on the exporting side
+                if not (isinstance(r, Failure) and isinstance(r.value, E.RemoteError)):
+                    out.append(Disc('result.unencodable-return-not-reported', 'call %d: caller got %r' % (tok, r)))
+                continue
+            if oc['kind'] in ('value', 'deferred', 'unencodable'):
                 want = _convention(spec['out'], oc['trees'])
                 if isinstance(r, Failure) or not R.nf_equal(r, want):
                     out.append(Disc('result.value', 'call %d %s -> %r: method returned %r, caller got %r' % (
@@ -349,7 +357,8 @@ def scenario(draw, tier, dfs=False):
     for _ in range(draw(st.integers(1, 2 if dfs else 3))):
         mi = draw(st.integers(0, len(methods) - 1))
         spec = methods[mi]
-        kinds = ['value', 'value', 'value', 'raise'] if dfs else ['value', 'value', 'value', 'raise', 'deferred', 'deferred-fail']
+        kinds = ['value', 'value', 'value', 'raise'] if dfs else ['value', 'value', 'value', 'raise', 'deferred', 'deferred-fail',
+                                                                   'unencodable']
         kind = draw(st.sampled_from(kinds))
         oc = {'kind': kind, 'trees': [draw(S.tree_for(t, 2)) for t in R.split_inner(spec['out'])],
               'pres': draw(S.presentation), 'as_tuple': draw(st.booleans())}
